@@ -145,6 +145,12 @@ def go_build(pkgdir, out, tags="verif", timeout=900):
     return rc, (o + e)
 
 
+def go_build_race(pkgdir, out, tags="verif", timeout=1800):
+    os.makedirs(os.path.dirname(out), exist_ok=True)
+    rc, o, e = run(["go", "build", "-race", "-tags", tags, "-o", out, "."], cwd=pkgdir, env=GOENV, timeout=timeout)
+    return rc, (o + e)
+
+
 GENERATORS = []   # (output file under theories/gen, probe subcommand); filled from lib/vlib/gens/*.py
 
 
